@@ -126,7 +126,7 @@ func (t *RichText) findContainerSize(cells []vaxis.Cell, ctx vxfw.DrawContext) v
 	if t.Softwrap {
 		scanner := NewSoftwrapScanner(cells, ctx.Max.Width)
 		for scanner.Scan() {
-			if size.Height > ctx.Max.Height {
+			if size.Height >= ctx.Max.Height {
 				return size
 			}
 			size.Height += 1
@@ -148,7 +148,7 @@ func (t *RichText) findContainerSize(cells []vaxis.Cell, ctx vxfw.DrawContext) v
 
 	scanner := NewHardwrapScanner(cells)
 	for scanner.Scan() {
-		if size.Height > ctx.Max.Height {
+		if size.Height >= ctx.Max.Height {
 			return size
 		}
 		size.Height += 1
